@@ -104,6 +104,7 @@ fn tampered(c: &Corpus) -> Vec<(String, Vec<u8>)> {
 
 pub fn run(rep: &'static Report) {
     rep.set_rule("E-GRAPH: every state of the C03 edit graphs is decrypted by the real code into a recording sink and the write log is checked (each written range is authentic plaintext of chunks whose whole record has already been consumed and is authentic in place; Ok only on complete authentic input). E-ENV: decryption of authentic and tampered files under every fault at every call index and bounded short reads/writes, same predicate on the offered buffers. distinct_nontrivial counts unique graph states + minted words + distinct faulty executions");
+    rep.rule_add("CLI level incl. a stdout reader that leaves after 0/1/4096 bytes.");
     rep.assume("whether the final chunk is written before a trailing-data error is deliberately not constrained (both orders satisfy the statement)");
     rep.assume("authentic corpus files are written by REF; forgery resistance of the AEAD is assumed");
     graph::run_all_graphs(rep, Which::C04);
